@@ -312,3 +312,26 @@ VH_ENTRY vh_next_end() {
   else ASSERT(cont && reg.map == map + adv + 1, "NEXT inside the map advances");
   VH_END();
 }
+
+// =================================================================================== C08/C09: queries on a segment do not write to the shared font
+#include "graphite2/Segment.h"
+VH_ENTRY vh_advance_query() {
+  World w; vh_make_face(w); vh_make_segment(w); vh_slot_floats(w);
+  // an unhinted font as gr_make_font builds it: advance cache present, no callbacks
+  Font *font = vh_new<Font>();
+  float *adv = vh_new<float>(NG);
+  for (unsigned i = 0; i < NG; ++i) adv[i] = nondet_float();
+  font->m_advances = adv; font->m_scale = nondet_fin(4096.f); font->m_hinted = false;
+  memset(&font->m_ops, 0, sizeof font->m_ops);
+  vh_freeze(font); vh_freeze(adv);
+  const gr_slot *gs = static_cast<const gr_slot *>(w.sl[0]);
+  const gr_face *gf = static_cast<const gr_face *>(w.face);
+  const gr_font *gfont = static_cast<const gr_font *>(font);
+  ASSUME(w.sl[0]->m_glyphid < NG && w.sl[0]->m_realglyphid < NG);
+  uint32_t snapshot[NG]; for (unsigned i = 0; i < NG; ++i) snapshot[i] = ((uint32_t *)adv)[i];
+  (void)gr_slot_advance_X(gs, gf, gfont);
+  (void)gr_slot_advance_Y(gs, gf, gfont);
+  (void)gr_slot_origin_X(gs); (void)gr_slot_origin_Y(gs); (void)gr_slot_gid(gs); (void)gr_slot_before(gs); (void)gr_slot_after(gs); (void)gr_slot_index(gs);
+  for (unsigned i = 0; i < NG; ++i) ASSERT(((uint32_t *)adv)[i] == snapshot[i], "slot queries leave the shared font's advance cache bit-identical");
+  VH_END();
+}
